@@ -217,7 +217,7 @@ proof!(c02_descendant_tree_b, 8, {
     let st = as_seg(&seg).process(State::root(&doc));
     let mut got = [core::ptr::null::<Mini>(); 8];
     let n = nodes_of(&st.data, &mut got);
-    assert!(n == 4, "$..* on {a:[x], b:{c:y}} must select four nodes");
+    assert!(n == 4, "$..* on (a:[x], b:(c:y)) must select four nodes");
     assert!(core::ptr::eq(got[0], &so.o.vals[0]) && core::ptr::eq(got[1], &so.o.vals[1]) && core::ptr::eq(got[2], &sa.elems[0]) && core::ptr::eq(got[3], &sb.o.vals[0]),
         "$..*: members in document order, a node's children before later nodes' children");
     kani::cover!(true, "end reached");
